@@ -3,13 +3,14 @@ module verif
 go 1.26.8
 
 require (
+	bazil.org/fuse v0.0.0-20230120002735-62a210ff1fd5
 	github.com/jech/storrent v0.0.0
+	golang.org/x/net v0.28.0
 	pgregory.net/rapid v1.3.0
 )
 
 require (
 	github.com/zeebo/bencode v1.0.0 // indirect
-	golang.org/x/net v0.28.0 // indirect
 	golang.org/x/sys v0.24.0 // indirect
 )
 
